@@ -57,6 +57,16 @@ type Obligation struct {
 	t    *Term // satisfiable => violated
 	msg  string
 	pos  string
+	pcs  []*Term // path condition conjuncts (for independence slicing)
+	bad  *Term   // negated condition (nil: the path condition itself is the obligation)
+}
+
+func (e *Engine) newObl(kind oblKind, st *State, bad *Term, msg, pos string) {
+	full := e.conj(st.pc)
+	if bad != nil {
+		full = e.b.And(full, bad)
+	}
+	e.obls = append(e.obls, Obligation{kind: kind, t: full, msg: msg, pos: pos, pcs: append([]*Term(nil), st.pc...), bad: bad})
 }
 
 type namedInput struct {
@@ -162,7 +172,7 @@ func (e *Engine) guard(st *State, cond *Term, what string, pos token.Pos) {
 	if !pos.IsValid() && len(st.frames) > 0 {
 		where = "in " + st.frames[len(st.frames)-1].fn.String()
 	}
-	e.obls = append(e.obls, Obligation{oblPanic, e.b.And(e.conj(st.pc), e.b.Not(cond)), "panic: " + what, where})
+	e.newObl(oblPanic, st, e.b.Not(cond), "panic: "+what, where)
 	e.addPC(st, cond)
 }
 
@@ -181,7 +191,7 @@ func (e *Engine) poisonPath(st *State, why string) {
 			where += " @ " + e.posStr(f.blk.Instrs[f.ip].Pos())
 		}
 	}
-	e.obls = append(e.obls, Obligation{oblPoison, e.conj(st.pc), "unsupported: " + why, where})
+	e.newObl(oblPoison, st, nil, "unsupported: "+why, where)
 	st.frames = nil
 }
 
@@ -843,7 +853,7 @@ func (e *Engine) exec(st *State, f *Frame, in ssa.Instruction) (action, []*State
 				msg += ": " + constant.StringVal(c.Value)
 			}
 		}
-		e.obls = append(e.obls, Obligation{oblPanic, e.conj(st.pc), "panic: " + msg, e.posStr(x.Pos())})
+		e.newObl(oblPanic, st, nil, "panic: "+msg, e.posStr(x.Pos()))
 		return actDead, nil
 	case *ssa.Jump:
 		e.enter(st, f.blk.Succs[0])
@@ -912,7 +922,7 @@ func (e *Engine) checkUnwind(st *State, f *Frame) (action, []*State) {
 	for _, k := range f.iters {
 		if k > bound {
 			if !e.inInit {
-				e.obls = append(e.obls, Obligation{oblUnwind, e.conj(st.pc), fmt.Sprintf("unwinding bound %d exceeded", bound), f.fn.String()})
+				e.newObl(oblUnwind, st, nil, fmt.Sprintf("unwinding bound %d exceeded", bound), f.fn.String())
 			} else {
 				e.aborted = "loop bound in init"
 			}
